@@ -257,11 +257,18 @@ pub fn trace_random(vctx: &valve::Ctx, players: &LayoutSet, seed: u64, runs: usi
         rep.evaluations += 1;
         rep.distinct.insert(hash_of(&(c.name.clone(), k, &order)));
         out.push(json!({"ev":"Call","ix":ix,"mode":mode,"k":k,"comp":comp,"case":c.name,"order":order}));
+        // (two fragments can be byte-identical - a list datagram that repeats an entry: a consumed datagram is matched with a
+        // fragment of the same bytes that was delivered but not yet accounted for, in delivery order)
+        let mut pending: Vec<usize> = order.clone();
         for e in &rec.events {
             if let hook::Event::Recv { out: o, .. } = e {
                 match o {
                     hook::RecvOut::Data(d) => {
-                        if let Some(i) = c.batches[c.multi].iter().position(|f| f == d) {
+                        let frags = &c.batches[c.multi];
+                        if let Some(pos) = pending.iter().position(|i| &frags[*i] == d) {
+                            let i = pending.remove(pos);
+                            out.push(json!({"ev":"Deliver","i":i}));
+                        } else if let Some(i) = frags.iter().position(|f| f == d) {
                             out.push(json!({"ev":"Deliver","i":i}));
                         }
                     }
